@@ -77,6 +77,76 @@ theorem refineNet_points (upd : Nat → K → K → K) (z0 : K) (x : List K) (un
   simp only [refineNet, refineFrom_eq_adjusted upd z0 x unks hnd 1]
   rfl
 
+/-! ## the refined network is still an exportable one (6848bc2a)
+
+Since a point inside `<coordinates>` no longer replaces coordinates the point has, `Net.WF` does not relate the VALUES of
+coordinate observations to the coordinates of the points (`agrees`: the groups only).  Moving the points therefore keeps
+`Net.WF` (for a codec that gives every number back: the moved coordinates are arbitrary numbers), and the round trip
+applies to the refined network. -/
+
+theorem adjusted_shape (upd : Nat → K → K → K) (z0 : K) (x : List K) (unks : List UnkT) (p : Point K) :
+    (adjusted upd z0 x unks p).id = p.id ∧ (adjusted upd z0 x unks p).sxy = p.sxy ∧ (adjusted upd z0 x unks p).sz = p.sz ∧
+    (adjusted upd z0 x unks p).xy.isSome = p.xy.isSome ∧ (adjusted upd z0 x unks p).z.isSome = p.z.isSome := by
+  refine ⟨rfl, rfl, rfl, ?_, ?_⟩
+  · unfold adjusted
+    simp only []
+    split <;> simp
+  · unfold adjusted
+    simp only []
+    split <;> simp
+
+theorem adjusted_active (upd : Nat → K → K → K) (z0 : K) (x : List K) (unks : List UnkT) (p : Point K) :
+    (adjusted upd z0 x unks p).active = p.active := rfl
+
+theorem filter_active_adjusted (upd : Nat → K → K → K) (z0 : K) (x : List K) (unks : List UnkT) (ps : List (Point K)) :
+    (ps.map (adjusted upd z0 x unks)).filter Point.active = (ps.filter Point.active).map (adjusted upd z0 x unks) := by
+  induction ps with
+  | nil => rfl
+  | cons p ps ih =>
+    simp only [List.map_cons, List.filter_cons, adjusted_active, ih]
+    cases p.active <;> simp
+
+/-- a cluster's invariants look at the points only through their ids and the coordinate groups they have -/
+theorem Cluster.WF_map_points {C : Codec K} {R Rd : K → Prop} (gons : Bool) (s0 : K) (ps : List (Point K)) (f : Point K → Point K)
+    (hf : ∀ p, (f p).id = p.id ∧ (f p).xy.isSome = p.xy.isSome ∧ (f p).z.isSome = p.z.isSome) (c : Cluster K)
+    (h : c.WF C R Rd gons s0 ps) : c.WF C R Rd gons s0 (ps.map f) := by
+  cases c with
+  | coords ext pts cov =>
+    obtain ⟨h1, h2, h3⟩ := h
+    refine ⟨h1, h2, ?_⟩
+    intro cp hcp
+    obtain ⟨⟨p, hp, hpe⟩, hall⟩ := h3 cp hcp
+    refine ⟨⟨f p, List.mem_map_of_mem hp, by rw [(hf p).1]; exact hpe⟩, ?_⟩
+    intro q hq hqe
+    obtain ⟨q0, hq0, rfl⟩ := List.mem_map.mp hq
+    rw [(hf q0).1] at hqe
+    obtain ⟨a1, a2⟩ := hall q0 hq0 hqe
+    exact ⟨fun hc => by rw [(hf q0).2.1]; exact a1 hc, fun hc => by rw [(hf q0).2.2]; exact a2 hc⟩
+  | obs sp cov => exact h
+  | hdiffs dhs cov => exact h
+  | vectors vecs cov => exact h
+
+theorem refineNet_WF {C : Codec K} {Rd : K → Prop} (upd : Nat → K → K → K) (z0 : K) (x : List K) (unks : List UnkT)
+    (hnd : unks.Nodup) (n : Net K) (hw : n.WF C (fun _ => True) Rd) : (refineNet upd z0 x unks n).WF C (fun _ => True) Rd := by
+  have hp := refineNet_points upd z0 x unks hnd n
+  have hpar : (refineNet upd z0 x unks n).par = n.par := rfl
+  have hhead : (refineNet upd z0 x unks n).head = n.head := rfl
+  have hcl : (refineNet upd z0 x unks n).clusters = n.clusters := rfl
+  refine ⟨by rw [hpar]; exact hw.par, by rw [hhead]; exact hw.epoch, ?_, ?_, ?_⟩
+  · rw [hp]
+    intro q hq
+    obtain ⟨p, hpm, rfl⟩ := List.mem_map.mp hq
+    refine ⟨by rw [adjusted_id]; exact (hw.ids p hpm).1, ?_⟩
+    unfold Point.Rep
+    constructor <;> split <;> trivial
+  · rw [hp, List.map_map]
+    exact hw.nodup
+  · rw [hp, hcl, hpar, filter_active_adjusted]
+    intro c hc
+    exact Cluster.WF_map_points _ _ _ _
+      (fun p => ⟨(adjusted_shape upd z0 x unks p).1, (adjusted_shape upd z0 x unks p).2.2.2.1, (adjusted_shape upd z0 x unks p).2.2.2.2⟩)
+      c (hw.clusters c hc)
+
 /-! ## refine_adjustment -/
 
 /-- a state in which neither test asks for a refinement is left as it is, with zero iterations -/
